@@ -793,7 +793,7 @@ package http2
 //@ ensures idlecode: strm.state == 0 && r0 != nil ==> iserror(r0) && errcode(r0) == ProtocolError && errframe(r0) == FrameGoAway
 //@ # half-closed(remote): WINDOW_UPDATE, PRIORITY, RST_STREAM and the CONTINUATION of a header block in progress; else STREAM_CLOSED
 //@ ensures half: strm.state == 3 ==> (r0 == nil <==> (fr.kind == 8 || fr.kind == 2 || fr.kind == 3 || (fr.kind == 9 && !strm.headersFinished)))
-//@ ensures halfcode: strm.state == 3 && r0 != nil ==> iserror(r0) && errcode(r0) == StreamClosedError
+//@ ensures halfcode: strm.state == 3 && r0 != nil ==> iserror(r0) && errcode(r0) == StreamClosedError && errframe(r0) == FrameGoAway
 //@ ensures other: strm.state != 0 && strm.state != 3 ==> r0 == nil
 
 //@ func validateRequestPseudoHeaders
@@ -853,7 +853,10 @@ package http2
 //@ # the verifier's 2^40 slice-size assumption is too weak to prove it
 //@ opt noovf=true
 //@ opt noframe=true
-//@ modifies *strm, capacity(strm.previousHeaderBytes), capacity(strm.path), capacity(strm.scheme), sc.dec.maxTableSize, sc.dec.dynamic, capacity(sc.dec.dynamic), family(HeaderField), anybytes()
+//@ modifies strm.previousHeaderBytes, strm.headerListSize, strm.regularSeen, strm.pseudoMethod, strm.pseudoPath, strm.pseudoScheme, strm.pseudoAuthority,
+//@ |   strm.path, strm.scheme, strm.contentLength, strm.hasContentLength,
+//@ |   capacity(strm.previousHeaderBytes), capacity(strm.path), capacity(strm.scheme), sc.dec.maxTableSize, sc.dec.dynamic, capacity(sc.dec.dynamic), family(HeaderField), anybytes()
+//@ ensures decok: hpackOK(sc.dec)
 //@ loop 0: invariant dec: hpackOK(sc.dec)
 //@ loop 0: invariant ptrs: hf != nil && strm != nil && sc != nil && fr != nil && req != nil && strm.ctx != nil
 //@ loop 0: invariant cnt: fieldsProcessed >= 0
@@ -875,3 +878,44 @@ package http2
 //@ |   (r0 == nil || !(iserror(r0) && errframe(r0) == FrameGoAway)) ==> strm.headerListSize <= sc.maxHeaderList
 //@ # ---- a trailer block must end the stream (RFC 7540 8.1) ----
 //@ ensures trailers: old(strm.headersFinished) && !(hasflag(fr.flags, 1) && hasflag(fr.flags, 4)) ==> r0 != nil
+
+//@ func (*serverConn).handleFrame
+//@ props C08 C06 C14 C13 C09 C17
+//@ requires args: sc != nil && strm != nil && fr != nil && strm.ctx != nil
+//@ requires typed: 0 <= fr.kind && fr.kind <= 9 && frameTypeOK(fr.fr, fr.kind) && fr.length >= 0 && fr.length <= 16777215
+//@ requires dec: hpackOK(sc.dec)
+//@ requires win: sc.maxWindow >= 0 && sc.currentWindow >= sc.maxWindow / 2 && sc.currentWindow <= sc.maxWindow
+//@ requires swin: strm.window >= -2147483648 && strm.window <= 2147483647 && strm.recvBody >= 0 && strm.recvBody <= 1099511627776
+//@ opt noframe=true
+//@ modifies strm.previousHeaderBytes, strm.headerListSize, strm.regularSeen, strm.pseudoMethod, strm.pseudoPath, strm.pseudoScheme, strm.pseudoAuthority,
+//@ |   strm.path, strm.scheme, strm.contentLength, strm.hasContentLength, strm.headersFinished, strm.recvBody, strm.window,
+//@ |   capacity(strm.previousHeaderBytes), capacity(strm.path), capacity(strm.scheme), sc.currentWindow, sc.dec.maxTableSize, sc.dec.dynamic, capacity(sc.dec.dynamic), family(HeaderField), anybytes()
+//@ let s0 = old(strm.state)
+//@ let k = fr.kind
+//@ # ---- RFC 7540 5.1: frames that are illegal for the stream's state ----
+//@ ensures idle: s0 == 0 && k != 1 && k != 2 ==> r0 != nil && iserror(r0) && errcode(r0) == ProtocolError && errframe(r0) == FrameGoAway
+//@ ensures halfclosed: s0 == 3 && !(k == 8 || k == 2 || k == 3 || (k == 9 && !old(strm.headersFinished))) ==>
+//@ |   r0 != nil && iserror(r0) && errcode(r0) == StreamClosedError
+//@ ensures conntype: (k == 4 || k == 5 || k == 6 || k == 7) ==> r0 != nil && iserror(r0) && errframe(r0) == FrameGoAway
+//@ # ---- WINDOW_UPDATE on a stream (RFC 7540 6.9, 6.9.1) ----
+//@ let inc = as(fr.fr, *WindowUpdate).increment
+//@ ensures wuzero: k == 8 && s0 != 0 && inc == 0 ==> r0 != nil && iserror(r0) && errcode(r0) == ProtocolError
+//@ ensures wuadd: k == 8 && s0 != 0 && inc > 0 && inc <= 2147483647 ==> strm.window == old(strm.window) + inc &&
+//@ |   (r0 == nil <==> old(strm.window) + inc <= 2147483647)
+//@ ensures wuflow: k == 8 && s0 != 0 && inc > 0 && inc <= 2147483647 && old(strm.window) + inc > 2147483647 ==> iserror(r0) && errcode(r0) == FlowControlError
+//@ # ---- DATA (RFC 7540 6.1) ----
+//@ ensures dataearly: k == 0 && s0 == 2 && !old(strm.headersFinished) ==> r0 != nil && iserror(r0) && errcode(r0) == ProtocolError
+//@ ensures databody: k == 0 && s0 == 2 && old(strm.headersFinished) ==> strm.recvBody == old(strm.recvBody) + len(as(fr.fr, *Data).b)
+//@ # every DATA frame that reaches the body accounting is credited back, accepted or not (C14, C09)
+//@ ensures datacredit: k == 0 && s0 == 2 && old(strm.headersFinished) ==> called((*serverConn).consumeRecvWindow) == 1
+//@ # a body above MaxRequestBodySize is refused with a stream error and never stored (C13)
+//@ ensures datamax: k == 0 && s0 == 2 && old(strm.headersFinished) && sc.maxRequestBodySize > 0 &&
+//@ |   old(strm.recvBody) + len(as(fr.fr, *Data).b) > sc.maxRequestBodySize ==>
+//@ |   r0 != nil && iserror(r0) && errcode(r0) == EnhanceYourCalm && errframe(r0) == FrameResetStream
+//@ # ---- RST_STREAM and PRIORITY ----
+//@ ensures rstok: k == 3 && s0 != 0 ==> r0 == nil
+//@ ensures prioself: k == 2 && (s0 == 0 || old(strm.headersFinished)) && as(fr.fr, *Priority).stream == strm.id ==>
+//@ |   r0 != nil && iserror(r0) && errcode(r0) == ProtocolError
+//@ ensures priook: k == 2 && (s0 == 0 || old(strm.headersFinished)) && as(fr.fr, *Priority).stream != strm.id ==> r0 == nil
+//@ # invariants handed back to the loop
+//@ ensures winv: sc.currentWindow >= sc.maxWindow / 2 && sc.currentWindow <= sc.maxWindow && hpackOK(sc.dec)
